@@ -1,5 +1,7 @@
+#![allow(dead_code)]
 mod util;
 mod c18;
+mod c13;
 
 fn main() {
     util::quiet_panics();
@@ -8,6 +10,8 @@ fn main() {
     match s.as_slice() {
         ["c18", "replay", path] => c18::replay(path),
         ["c18", "record", runs, max_n, path] => c18::record(runs.parse().unwrap(), max_n.parse().unwrap(), path),
+        ["c13", "replay", path] => c13::replay(path),
+        ["c13", "record", runs, ops, path] => c13::record(runs.parse().unwrap(), ops.parse().unwrap(), path),
         _ => {
             eprintln!("usage: vh <prop> <replay|record> ...");
             std::process::exit(2);
